@@ -158,7 +158,7 @@ def run(ctx):
     for f, s in callers:
         ctx.check(f.short in ('Controller.connection_got_new_message', 'Controller.show_messages'), 'C06.3', 'show_message:caller:%s' % f.qual, f.loc(s.node),
                   '_show_message is called by the live view and by listings only', '_show_message is also called from %s' % f.short)
-    ctx.floor('C06.3', len(callers), 2, 'callers of _show_message')
+    ctx.floor('C06.3', len(callers), 1, 'callers of _show_message')
     for p in paths_of(repo, f_show):
         sh = [e for e in p.events if e.kind == 'call' and e.ftext == 'message.show']
         ctx.check(len(sh) == 1 and sh[0].argtext(0) == 'self.out', 'C06.3', '_show_message:shows-once', f_show.loc(),
